@@ -51,7 +51,7 @@ func TestVerifC02(t *testing.T) {
 	sim.Main(t, sim.Config{
 		Prop:     "C02",
 		Scenario: c02Scenario,
-		Runs:     map[string]int{"quick": 2500, "thorough": 300000},
+		Runs:     map[string]int{"quick": 20000, "thorough": 600000},
 		Real:     []string{"cmd/application handleNewTCPConn", "min / prefix / obfs4 station transports (WrapConnection, identifiers, tag reveal, obfs4 mark) and real client transports for genuine flights", "RegistrationManager: ingest pipeline, GetRegistrations / Valid flag, MarkActive, RemoveOldRegistrations", "Proxy dial (seam)"},
 		Stub:     []string{"TCP (simnet)", "phantom liveness table", "detector recorder", "covert hosts (echo actors)", "ZMQ", "accept-loop glue"},
 		Rule: "random histories of 4-22 operations over 2-5 clients (min / prefix x id / obfs4; dual-stack) whose phantoms collide on 2+2 addresses: register, duplicate, flip phantom liveness, advance (1 s .. 6 h 1 min), sweep, connect. A connect is: genuine flight, genuine flight aimed at another phantom, flight for another transport / another prefix id / obfs4 handshake with the same secret, flight for a rejected or swept registration, genuine flight with 1-3 bits flipped in the tag, truncated flight, random bytes; under random segmentation. " +
